@@ -83,7 +83,7 @@ def run_fuse(pair, out_fn, rng=None, threads=2, fault=None, controlled=True, tim
                 locks_free=locks_free, reader_closed=box.get('reader_closed'))
 
 
-def run_compare(src_fn, ref_fn, rng=None, threads=2, fault=None, max_block_mem=512, proc_crs='auto', timeout=120):
+def run_compare(src_fn, ref_fn, rng=None, threads=2, fault=None, max_block_mem=512, proc_crs='auto', timeout=120, reuse=False):
     from homonim import RasterCompare
     from homonim.enums import ProcCrs
     rec = ip.Recorder({src_fn: 'src', ref_fn: 'ref'}, rng=rng, fault=fault)
@@ -102,6 +102,14 @@ def run_compare(src_fn, ref_fn, rng=None, threads=2, fault=None, max_block_mem=5
                         box['outcome'] = 'raise:' + type(ex).__name__
                         import traceback
                         box['traceback'] = traceback.format_exc()[-1500:]
+                    if fault is not None and reuse:
+                        # the same object must be usable again after a failed call - and give the result of a fresh object
+                        rec.fault = None
+                        try:
+                            box['reuse_stats'] = rc.process(threads=threads, max_block_mem=max_block_mem)
+                            box['reuse'] = 'ok'
+                        except BaseException as ex:   # noqa: B902
+                            box['reuse'] = 'raise:' + type(ex).__name__
         except BaseException as ex:   # noqa: B902
             box['outcome'] = 'harness-error:' + type(ex).__name__ + ':' + str(ex)[:200]
     th = threading.Thread(target=body, daemon=True)
@@ -110,6 +118,7 @@ def run_compare(src_fn, ref_fn, rng=None, threads=2, fault=None, max_block_mem=5
     if th.is_alive():
         box['outcome'] = 'hang'
     return dict(outcome=box.get('outcome', 'unknown'), stats=box.get('stats'), rec=rec, traceback=box.get('traceback'),
+                reuse=box.get('reuse'), reuse_stats=box.get('reuse_stats'),
                 files_closed=all(getattr(ds, 'closed', True) for (_, _, ds) in rec.datasets),
                 locks_free=all(not l.locked() for l in rec.lock_names.values()))
 
